@@ -107,6 +107,8 @@ def _run(spec, prop, tier, seed, replay, wd):
         raise E.MachineryError(f"{len(rejected)} traces were not consumed by the trace specification, first tid {rejected[0]}")
     bad = []
     nontrivial = set()
+    from collections import Counter
+    pvs = Counter()
     for t in traces:
         tid = t["tid"]
         cmp_, pv, mv = rows[tid][0], rows[tid][1], rows[tid][2]
@@ -116,12 +118,15 @@ def _run(spec, prop, tier, seed, replay, wd):
         if mv == "violated":
             raise E.MachineryError(f"the specification violates the property formula on recorded history {tid}: "
                                    + json.dumps([S.render_doc(d) for d in docs]))
+        pvs[pv] += 1
         if pv == "violated":
             bad.append(tid)
         elif cmp_ != "ok":
             drift += 1
     cov["traces_validated_against_impl"] += len(traces)
     cov["distinct_nontrivial"] = len(nontrivial)
+    cov["trace_validation"]["property_verdicts"] = dict(pvs)
+    summary["trace_verdicts"] = dict(pvs)
     cov["evaluations"] = replayed + len(traces)
     cov["rule"] = spec["rule"]
     if traces and len(cov["samples"]) < 6:
